@@ -360,6 +360,28 @@ static void state_snapshot(buf_t *out)
     struct rlimit rl; getrlimit(RLIMIT_NOFILE, &rl);
     snprintf(t, sizeof t, ";nofile=%llu", (unsigned long long) rl.rlim_cur);
     buf_add(out, t, strlen(t));
+    /* timers the caller did not set */
+    struct itimerval itv; memset(&itv, 0, sizeof itv); getitimer(ITIMER_REAL, &itv);
+    snprintf(t, sizeof t, ";itimer=%s", (itv.it_value.tv_sec || itv.it_value.tv_usec) ? "armed" : "off");
+    buf_add(out, t, strlen(t));
+    /* the C library's tokenizer state: the caller is in the middle of a strtok() sequence over its own buffer; the next token must
+       still be the caller's (probed and re-primed every time, so the reading is the same at every snapshot) */
+    {
+        static char tokbuf[32];
+        static int primed;
+        static pthread_mutex_t tm = PTHREAD_MUTEX_INITIALIZER;
+        pthread_mutex_lock(&tm);
+        if (primed) {
+            char *nx = strtok(NULL, ",");
+            if (nx >= tokbuf && nx < tokbuf + sizeof tokbuf) snprintf(t, sizeof t, ";strtok=+%d", (int) (nx - tokbuf));
+            else snprintf(t, sizeof t, ";strtok=%s", nx ? "foreign-buffer" : "ended");
+        } else snprintf(t, sizeof t, ";strtok=+3");
+        buf_add(out, t, strlen(t));
+        strcpy(tokbuf, "aa,bb,cc,dd");
+        strtok(tokbuf, ",");
+        primed = 1;
+        pthread_mutex_unlock(&tm);
+    }
 }
 
 /* ------------------------------------------------------------------ vectors */
